@@ -144,8 +144,8 @@ fn run_g<C: Codec>(c: &Case, trace: bool) -> RunOut {
                 out.violate(sig("no-eof"), format!("after the last packet the decoder returned {} instead of end-of-input", fe_long::<C>(&fe)));
             }
         }
-        for v in core.borrow().sim_violations.iter() {
-            out.violate(format!("C08:{f}:{front:?}:pending-without-transport"), v.clone());
+        for v in core.borrow().sim_violations.iter().filter(|v| v.contains(crate::sim::LOST_WAKE)) {
+            out.violate(format!("C08:{f}:{front:?}:hang"), v.clone());
         }
         out.absorb_core(&core, trace);
     }
